@@ -4,6 +4,9 @@
 # seeded patches in /repo do not leak into a running sweep); evidence and replays go to a scratch directory.
 out="$1"; shift
 bin=/tmp/mlsim_sweep.$$; bin2=/tmp/mlsim_sr_sweep.$$
+# (the binaries in target/ may have been built from a patched /repo by seedtest.sh: build from the current tree first)
+(cd /verif/sim && CARGO_NET_OFFLINE=true cargo build --release --offline -q) || exit 2
+(cd /verif/sim-sr && CARGO_NET_OFFLINE=true cargo build --release --offline -q) || exit 2
 cp /verif/sim/target/release/mlsim $bin || exit 2
 cp /verif/sim/target/release/mlsim-sr $bin2 || exit 2
 for s in "$@"; do
